@@ -6,3 +6,10 @@ NOTE = "trusted: CPython semantics, CrossHair 0.0.110 models of builtins + the s
 add("C06", CH + "; comparison-only paths on IEEE binary64, rebasing on exact reals",
     "All-paths verdict, within <=2 (quick) / <=3 (thorough) entries per tier and windows anywhere in [-1000,1000], that IntervalTier.crop / PointTier.crop / Textgrid.crop equal the reference crop (entries, labels, span, widening, ArgumentError for a>=b, receiver unchanged) for every mode and rebase setting. Path-wise symbolic execution enumerates the order types of boundaries against the window, which is exactly the quantifier of the property; nothing is claimed above the bounds.",
     NOTE, "DESIGN.md 3/C06")
+
+add("C07", CH + "; rounding clause by AST-sliced kernels translated to QF_FP (z3 + cvc5)",
+    "All-paths verdict (exact reals, <=2 quick / <=3 thorough entries, 3 collision modes x shrink) that IntervalTier/PointTier/Textgrid.eraseRegion equal the reference erase incl. span bookkeeping, CollisionError/ArgumentError conditions and receiver immutability; plus solver verdicts over all binary64 timestamps in [2^-20,2^20] that the shrink kernel maps the region end exactly onto its start and never moves an interval before it. The bounded no-collapse clause is attempted in the thorough tier and reported UNKNOWN when the solvers do not finish.",
+    NOTE + "; KSMT translator subset (engine/ksmt.py); real-mode verdicts say nothing about rounding", "DESIGN.md 3/C07")
+add("C08", CH + "; rounding clause by AST-sliced kernels translated to QF_FP (z3 + cvc5)",
+    "All-paths verdict (exact reals) that insertSpace equals the reference for every collision mode on interval, point and multi-tier textgrids (incl. an empty tier), that error mode raises iff an interval straddles, and that insertSpace followed by eraseRegion(shrink) restores the label-at-time function and span; plus a QF_FP verdict over all binary64 inputs in range that two adjacent intervals stay exactly adjacent after a split/stretch.",
+    NOTE + "; KSMT translator subset (engine/ksmt.py)", "DESIGN.md 3/C08")
